@@ -106,6 +106,10 @@ func main() {
 		os.Exit(cmdWorker(os.Args[2:]))
 	case "replay":
 		os.Exit(cmdReplay(os.Args[2:]))
+	case "digest":
+		os.Exit(cmdDigest(os.Args[2:]))
+	case "selftest":
+		os.Exit(cmdSelftest(os.Args[2:]))
 	default:
 		fmt.Fprintln(os.Stderr, "unknown command")
 		os.Exit(2)
@@ -243,8 +247,8 @@ func cmdWorker(args []string) int {
 		os.MkdirAll(filepath.Dir(path), 0o755)
 		b, _ := json.MarshalIndent(rf, "", " ")
 		os.WriteFile(path, b, 0o644)
-		// replay the file once more in this process before reporting
-		if again := replayFile(path); again == nil || again.Rule != rf.Rule || again.Shape != rf.Shape {
+		// replay the file once more, in a fresh process, before reporting
+		if !subprocessReplay(path) {
 			st.Trouble = fmt.Sprintf("replay of %s did not reproduce %s/%s", path, rf.Rule, rf.Shape)
 			break
 		}
@@ -293,10 +297,36 @@ type Engine interface {
 	Replay(rf *ReplayFile) *RunOut
 }
 
+// multiEngine interleaves several engines over the run index space.
+type multiEngine struct{ parts []Engine }
+
+func (m *multiEngine) Name() string {
+	var n []string
+	for _, p := range m.parts {
+		n = append(n, p.Name())
+	}
+	return strings.Join(n, "+")
+}
+func (m *multiEngine) Run(prop, tier string, idx int, tape *Tape) *RunOut {
+	return m.parts[idx%len(m.parts)].Run(prop, tier, idx/len(m.parts), tape)
+}
+func (m *multiEngine) Minimise(prop, tier string, idx int, tapes [nStreams][]int32, v Violation) *ReplayFile {
+	return m.parts[idx%len(m.parts)].Minimise(prop, tier, idx/len(m.parts), tapes, v)
+}
+func (m *multiEngine) Replay(rf *ReplayFile) *RunOut {
+	sub := *rf
+	sub.Run = rf.Run / len(m.parts)
+	return m.parts[rf.Run%len(m.parts)].Replay(&sub)
+}
+
 func engineFor(prop string) Engine {
 	switch prop {
-	case "C01", "C02", "C03", "C04", "C05", "C07", "C08", "C09", "C10", "C11", "C12", "C13", "C14", "C15", "C18":
+	case "C01", "C02", "C03", "C04", "C07", "C08", "C09", "C10", "C11", "C12", "C13", "C14", "C15", "C18":
 		return &containerEngine{}
+	case "C05":
+		return &multiEngine{parts: []Engine{&containerEngine{}, &graphEngine{}}}
+	case "C19":
+		return &graphEngine{}
 	}
 	return nil
 }
@@ -414,7 +444,7 @@ func cmdCheck(args []string) int {
 		env := os.Environ()
 		if *raceBin != "" && useRace(*prop) && w%2 == 1 {
 			bin = *raceBin
-			env = append(env, "GORACE=halt_on_error=0 exitcode=0", "VERIF_RACE_WORKER=1")
+			env = append(env, "GORACE=halt_on_error=0 exitcode=0 log_path="+os.Getenv("VERIF_RACE_LOG"), "VERIF_RACE_WORKER=1")
 		}
 		go func() {
 			cmd := exec.Command(bin, "worker", "-prop", *prop, "-tier", *tier, "-seed", fmt.Sprint(*seed),
@@ -529,3 +559,132 @@ func tail(s string, n int) string {
 }
 
 var _ = simrt.RaceBuild
+
+// ---------------------------------------------------------------------------
+// Determinism self-test.
+
+func cmdDigest(args []string) int {
+	fs := flag.NewFlagSet("digest", flag.ExitOnError)
+	prop := fs.String("prop", "", "property id")
+	tier := fs.String("tier", "quick", "tier")
+	seed := fs.Uint64("seed", 1, "seed")
+	from := fs.Int("from", 0, "")
+	to := fs.Int("to", 1, "")
+	fs.Parse(args)
+	eng := engineFor(*prop)
+	if eng == nil {
+		return 2
+	}
+	for i := *from; i < *to; i++ {
+		sub := mix(mix(*seed, hashStr(*prop)), uint64(i))
+		out := eng.Run(*prop, *tier, i, NewTape(sub))
+		var rules []string
+		for _, v := range out.Violations {
+			if v.Rule == "C09.race" {
+				rules = append(rules, v.Rule+"/"+v.Shape)
+			} else {
+				rules = append(rules, v.Rule)
+			}
+		}
+		sort.Strings(rules)
+		fmt.Printf("%s %d sched=%016x steps=%d digest=%s rules=%s\n", *prop, i, out.SchedHash, out.Steps, out.Digest, strings.Join(rules, ","))
+	}
+	return 0
+}
+
+// cmdSelftest: the same sub-seeds must produce identical event digests,
+// schedules and verdicts across processes, GOMAXPROCS values and the plain /
+// race-detector builds.
+func cmdSelftest(args []string) int {
+	fs := flag.NewFlagSet("selftest", flag.ExitOnError)
+	raceBin := fs.String("race-bin", "", "race build")
+	n := fs.Int("n", 40, "sub-seeds per property")
+	long := fs.Bool("long", false, "long form: more properties, more processes")
+	fs.Parse(args)
+	self, _ := os.Executable()
+	props := []string{"C02", "C09", "C13", "C19"}
+	if *long {
+		props = allEngineProps()
+	}
+	type cfg struct {
+		bin  string
+		gmp  string
+		race bool
+	}
+	cfgs := []cfg{{self, "1", false}, {self, "4", false}, {self, "16", false}}
+	if *raceBin != "" {
+		cfgs = append(cfgs, cfg{*raceBin, "4", true}, cfg{*raceBin, "16", true})
+	}
+	if *long {
+		cfgs = append(cfgs, cfgs...)
+	}
+	bad := 0
+	for _, p := range props {
+		outs := make([]string, len(cfgs))
+		done := make(chan int, len(cfgs))
+		for i, c := range cfgs {
+			i, c := i, c
+			go func() {
+				cmd := exec.Command(c.bin, "digest", "-prop", p, "-seed", "7", "-from", "0", "-to", fmt.Sprint(*n))
+				cmd.Env = append(os.Environ(), "GOMAXPROCS="+c.gmp, "GORACE=halt_on_error=0 exitcode=0 log_path="+os.DevNull)
+				b, err := cmd.Output()
+				if err != nil {
+					outs[i] = "ERROR " + err.Error()
+				} else {
+					outs[i] = string(b)
+				}
+				done <- i
+			}()
+		}
+		for range cfgs {
+			<-done
+		}
+		for i := 1; i < len(outs); i++ {
+			a, b := outs[0], outs[i]
+			if cfgs[i].race != cfgs[0].race {
+				// race workers add C09.race verdicts; compare everything but the rules column
+				a, b = stripRules(a), stripRules(b)
+			}
+			if a != b || strings.HasPrefix(outs[i], "ERROR") || outs[0] == "" {
+				bad++
+				fmt.Printf("SELFTEST-NONDETERMINISM property=%s config %d (GOMAXPROCS=%s race=%v) differs from config 0\n", p, i, cfgs[i].gmp, cfgs[i].race)
+				al, bl := strings.Split(a, "\n"), strings.Split(b, "\n")
+				for k := 0; k < len(al) && k < len(bl); k++ {
+					if al[k] != bl[k] {
+						fmt.Println("  <", al[k])
+						fmt.Println("  >", bl[k])
+						break
+					}
+				}
+			}
+		}
+	}
+	if bad > 0 {
+		fmt.Println("selftest: determinism FAILED")
+		return 2
+	}
+	fmt.Printf("selftest: determinism ok (%d properties x %d sub-seeds x %d process configurations)\n", len(props), *n, len(cfgs))
+	return 0
+}
+
+func stripRules(s string) string {
+	var out []string
+	for _, l := range strings.Split(s, "\n") {
+		if i := strings.Index(l, " rules="); i >= 0 {
+			l = l[:i]
+		}
+		out = append(out, l)
+	}
+	return strings.Join(out, "\n")
+}
+
+func allEngineProps() []string {
+	var out []string
+	for i := 1; i <= 20; i++ {
+		p := fmt.Sprintf("C%02d", i)
+		if engineFor(p) != nil {
+			out = append(out, p)
+		}
+	}
+	return out
+}
